@@ -196,6 +196,14 @@ pub fn oracle(d: &Damaged, o: &Observed) -> Verdict {
                                 ),
                             );
                         }
+                        if *n == 0 && c.size > 0 && first_terminal_seen && had_error && !complete_ok && plan.framing != Framing::Close {
+                            // a self-delimiting body that never completed must not turn into a clean end
+                            // when the caller reads again after the error
+                            return violation(
+                                format!("incomplete-reported-complete-after-error:{}", tag),
+                                format!("call {} returned Ok(0) (end of body) after an earlier error although the framing never completed (reference: {:?}, {} bytes handed out)", i, r.end, handed),
+                            );
+                        }
                         if *n == 0 && c.size > 0 && !first_terminal_seen {
                             first_terminal_seen = true;
                             if !complete_ok {
